@@ -153,3 +153,4 @@ V('C04', 'link-target-prop-not-updated-when-inherited', 'edb/schema/links.py',
 # round 5: the stored seeded breaks this property's check reports, replayed as variants
 from sa.selftest import VP  # noqa
 VP('C04', 'C04-e3', 'C04.R12', 'delcanon-key')
+VP('C04', 'C04-f1', 'C04.R13', 'walks-descendant-closure')
